@@ -20,13 +20,13 @@ var rule = fmt.Sprintf("Struct family (types.go): Strs, Nums, Opts (attr/optiona
 	"two-element positions (list of 2, both labels of a block, labels of 2 repeated blocks, 2 map keys) take all pairs of strings of <= 1 atom (%dx%d); "+
 	"map keys additionally from {a, for, if, in, else, null, true, false, \"\", 'a b', 0, a.b, -, a-b, é, ${x}} singly (each first) and in all unordered pairs; ints {0, ±1, min/max of the type}; floats {0, 0.5, -1.5, 0.1, 1e20, 1e-7, max, smallest denormal}; "+
 	"slices and repeated blocks of length 0..2 (nil and empty); pointers nil/non-nil; block multiplicities as the full product One x Ptr{nil,set} x |Many| 0..2 x |PMany| 0..2; Deep shapes as the full product of 0..2 mid blocks x (0..2 leaf blocks x only{nil,set}) each. "+
-	"Sibling blocks (Sib): for each label count 1..5 ALL ordered pairs of blocks whose label tuples range over {a,b}^n (every shared-prefix length, every position of the difference, identical tuples) and for label counts <= 4 ALL ordered triples; every label position of a 3/4/5-label block over the <= 1-atom strings next to a sibling sharing the other labels. "+
+	"Sibling blocks (Sib): for each label count 1..5 ALL ordered pairs of blocks whose label tuples range over {a,b}^n (every shared-prefix length, every position of the difference, identical tuples) and for label counts <= 3 ALL ordered triples (a label that reappears after a different one); every label position of a 3/4/5-label block over the <= 1-atom strings next to a sibling sharing the other labels. "+
 	"Nil elements of []*struct are outside the domain (the encoder documents no representation for them). Every value is encoded (EncodeIntoBody by pointer and by value, EncodeAsBlock for Wrap*), parsed, decoded into a fresh value (DecodeBody, hclsimple) and compared with "+
 	"reflect.DeepEqual modulo nil == empty for slices/maps and convert-to-original-type for cty.Value; its document model is rendered independently as native text and as up to 8 JSON twins (nesting forms: per-block label nesting with objects / with arrays of objects, and the merged label tree of each run of blocks of one type "+
 	"-- blocks sharing a label prefix with their predecessor become sibling properties of one object / sibling elements of one array, blocks with identical labels one array of bodies, a reappearing label a repeated property name -- with objects / with arrays; each x literal-only / template mode) which must decode to the same value. "+
 	"Oracle 3: every single edit of the document of each value whose swept strings have <= 1 atom of the base atoms (all structural cases, all single-base-atom strings, the diagonal of the pair positions) (delete/duplicate an item, add an unexpected attribute / block, attribute<->block, add / remove a label, replace an attribute value by each of 16 literals of other types -- the latter only for the non-swept, structural values) in both syntaxes, and every single line deletion / duplication of the real encoder's output, must decode without panic; "+
 	"unexpected items and missing required attributes must give error diagnostics, a missing optional attribute must give the value with that field zero (doc.go). "+
-	"thorough: additionally strings of <= 3 atoms over the alphabet extended by {CR, NUL, U+2028, ~, U+FFFD, U+00AD, U+3000, U+10FFFD} (%d strings) at every single string position, all pairs of <= 2-atom strings at the two-element positions and all triples of 5-label sibling blocks (no perturbations for these). "+
+	"thorough: additionally strings of <= 3 atoms over the alphabet extended by {CR, NUL, U+2028, ~, U+FFFD, U+00AD, U+3000, U+10FFFD} (%d strings) at every single string position, all pairs of <= 2-atom strings at the two-element positions and all ordered triples of 4- and 5-label sibling blocks (no perturbations for these). "+
 	"Non-trivial = the round trip succeeded (sig = generated source) or the perturbed document was decoded (sig = edit, outcome, diagnostic summaries or decoded value).",
 	len(strs(atomsQuick, 2)), len(strs(atomsQuick, 1)), len(strs(atomsQuick, 1)), len(strs(atomsExt, 3)))
 
@@ -146,7 +146,7 @@ func gen(tier string, emit func(engine.Case) bool) {
 		}
 		genAll(b, out)
 	}
-	run(bounds{S: strs(atomsQuick, 2), P: strs(atomsQuick, 1), Trip: 4, pert: true})
+	run(bounds{S: strs(atomsQuick, 2), P: strs(atomsQuick, 1), Trip: 3, pert: true})
 	if tier == "thorough" {
 		run(bounds{S: strs(atomsExt, 3), P: strs(atomsQuick, 2), Trip: 5, pert: false})
 	}
